@@ -365,7 +365,7 @@ fn finish_zone(cfg: &Cfg, st: &State) -> Option<&'static str> {
         }
     }
     if let (Some(f), Some(l)) = (st.first_dts_ticks, st.last_dts_ticks) {
-        if l - f > (u32::MAX as u64) / 2 {
+        if l.saturating_sub(f) > (u32::MAX as u64) / 2 {
             return Some("Z8 total duration near/over 2^32 ticks (C16)");
         }
     }
